@@ -198,6 +198,21 @@ UNITS = {
 }
 
 
+def fallibility(names):
+    """{Gallina function name: True if it returns `res _`} for the given units (the harness needs it to compare
+    values: a rewrite can turn a fallible helper into a pure one and vice versa)"""
+    out = {}
+    for n in names:
+        try:
+            m = UNITS[n]()
+            m.translate()
+        except (Refuse, SyntaxError):
+            continue
+        for fs in m.funcs.values():
+            out[fs.gname] = bool(fs.fallible)
+    return out
+
+
 def generate(name, coq_dir):
     """Returns (ok, message).  Writes coq/Gen/<name>.v when the text changed."""
     from vlib import write_if_changed
